@@ -148,14 +148,18 @@ class State:
             return
         self.pc.append(fact)
 
-    def assume_type(self, v):
+    def assume_type(self, v, guard=None):
         """Type invariant of a value read from the heap / an input.  Type invariants are
         unconditional assumptions about typed locations, so they are not guarded; they are
-        quantified only over the bound variables that occur in them."""
+        quantified only over the bound variables that occur in them.  `guard`: the location exists only
+        under this condition (value of a dict key that may be absent: an absent key of a fresh dict reads
+        `none`, and an unguarded type fact about it would make the state inconsistent)."""
         facts = type_invariant(v)
         if not facts:
             return
         for fact in facts:
+            if guard is not None and not z3.is_true(guard):
+                fact = z3.Implies(guard, fact)
             for var, guard in reversed(self.bound):
                 if occurs(var, fact):
                     fact = z3.ForAll([var], z3.Implies(guard, fact))
